@@ -140,14 +140,19 @@ func stepsFrom(t reflect.Type) []pStep {
 		for _, i := range []int{0, 1, 7} {
 			out = append(out, pStep{kind: "M", name: "Kid", src: fmt.Sprintf(".Kid(%d)", i), idx: i, harg: true})
 		}
+		// arguments that mention the root variable (or a variable named like a
+		// member) from inside the path: they must still see the outer value
+		out = append(out, pStep{kind: "M", name: "Kid", src: ".Kid(pick(ROOT, 1))", idx: 1, harg: true},
+			pStep{kind: "M", name: "Kid", src: ".Kid(pick(Kids, 0))", idx: 0, harg: true})
 	case t.Kind() == reflect.Slice || t.Kind() == reflect.Array:
 		for _, i := range []int{0, 1, 7} {
 			for _, f := range idxForms(i) {
 				out = append(out, pStep{kind: "I", src: f, idx: i})
 			}
 		}
+		out = append(out, pStep{kind: "I", src: "[pick(ROOT, 1)]", idx: 1}, pStep{kind: "I", src: "[pick(Tags, 0)]", idx: 0})
 	case t.Kind() == reflect.Map && t.Key().Kind() == reflect.String:
-		out = append(out, pStep{kind: "K", src: `["k0"]`, key: "k0"}, pStep{kind: "K", src: `["k1"]`, key: "k1"}, pStep{kind: "K", src: "[key0]", key: "k0"}, pStep{kind: "K", src: `["zz"]`, key: "zz"})
+		out = append(out, pStep{kind: "K", src: `["k0"]`, key: "k0"}, pStep{kind: "K", src: `["k1"]`, key: "k1"}, pStep{kind: "K", src: "[key0]", key: "k0"}, pStep{kind: "K", src: `["zz"]`, key: "zz"}, pStep{kind: "K", src: `[pickS(ROOT, "k1")]`, key: "k1"})
 	case t.Kind() == reflect.Map && t.Key().Kind() == reflect.Uint8:
 		// an int index never addresses another key by wrapping around: 300 is not 44
 		out = append(out, pStep{kind: "K", src: "[5]", idx: 5, narrow: true}, pStep{kind: "K", src: "[300]", idx: 300, narrow: true}, pStep{kind: "K", src: "[i300]", idx: 300, narrow: true}, pStep{kind: "K", src: "[7]", idx: 7, narrow: true}, pStep{kind: "K", src: "[0 - 212]", idx: -212, narrow: true})
@@ -286,7 +291,7 @@ func (p c11Path) src() string {
 	var sb strings.Builder
 	sb.WriteString(p.rootName)
 	for _, s := range p.steps {
-		sb.WriteString(s.src)
+		sb.WriteString(strings.Replace(s.src, "ROOT", p.rootName, -1))
 	}
 	return sb.String()
 }
@@ -318,6 +323,37 @@ func c11Ctx(g *c11Graph) *plush.Context {
 	ctx.Set("i300", 300)
 	ctx.Set("i200", 200)
 	ctx.Set("key0", "k0")
+	// variables named like members of the nodes, and helpers that tell whether
+	// the variable they are handed is still the outer one
+	ctx.Set("Kids", "outer-Kids")
+	ctx.Set("Tags", "outer-Tags")
+	outer := func(x interface{}) bool {
+		switch v := x.(type) {
+		case string:
+			return v == "outer-Kids" || v == "outer-Tags"
+		case PNode:
+			return v.Name == g.root.Name
+		case *PNode:
+			return v == &g.root
+		case []PNode:
+			return len(v) == len(g.nodes) && len(v) > 0 && &v[0] == &g.nodes[0]
+		case map[string]PNode:
+			return reflect.ValueOf(v).Pointer() == reflect.ValueOf(g.nmap).Pointer()
+		}
+		return false
+	}
+	ctx.Set("pick", func(x interface{}, n int) int {
+		if outer(x) {
+			return n
+		}
+		return 99
+	})
+	ctx.Set("pickS", func(x interface{}, k string) string {
+		if outer(x) {
+			return k
+		}
+		return "clobbered"
+	})
 	return ctx
 }
 
@@ -567,7 +603,24 @@ func c11Run(b *core.B) {
 				return
 			}
 			for _, s := range stepsFrom(t) {
-				walk(root, stepType(t, s), append(steps, s))
+				nt := stepType(t, s)
+				walk(root, nt, append(steps, s))
+				if nt == nil && (t == tNode || t == tPNode) && len(steps)+2 <= maxLen+1 {
+					// navigation has failed here; whatever is appended must not bring a value back
+					// (the receiver of an unknown method, say)
+					for _, after := range []pStep{{kind: "F", name: "Name", src: ".Name"}, {kind: "M", name: "Label", src: ".Label()"}, {kind: "M", name: "PLabel", src: ".PLabel()"}, {kind: "F", name: "Tags", src: ".Tags"}} {
+						idx++
+						if b.Mine(idx) {
+							p := c11Path{rootName: root.name, steps: append(append([]pStep{}, steps...), s, after)}
+							use := int(idx % 3)
+							if after.name == "Tags" {
+								use = 3
+							}
+							c11Judge(b, g, p, use)
+							b.Count("paths-continued-after-a-failing-step")
+						}
+					}
+				}
 			}
 		}
 		for _, root := range roots {
